@@ -14,9 +14,9 @@ from .c10 import OPTS, _timing
 PID = "C12"
 RULE = (
     "exhaustive: every script of bounded length over {start, stop, four kinds of FindService} x timing prefixes relative to the next library timer, for two timing configurations; random: cases = timing configuration (as C10: initial-delay window, repetitions, cyclic or not, TTL, collection timeout, "
-    "request-response window, drawn fractions), 1..3 instances of one service differing in instance id / major / minor "
-    "version, and a script of announcer start / stop / restart and FindService datagrams whose ids are taken from an "
-    "instance, off by one, or the wildcard (every wildcard combination), unicast or multicast, from 2 requesters, placed "
+    "request-response window, drawn fractions; one Timings object or separate ones for protocol and instances), 1..3 instances of one service differing in instance id / major / minor "
+    "version, with unrelated option runs or runs that are prefixes / suffixes / rotations of each other, and a script of announcer start / stop / restart and FindService datagrams whose ids are taken from an "
+    "instance, off by one, or the wildcard (every wildcard combination), unicast or multicast, from 2 requesters (one in six of their messages reveals a reboot of the requester), placed "
     "by delay or relative to pending library timers (initial wait, each repetition, cyclic phase, just before/after a "
     "stop, after restart, while an earlier delayed answer is pending). non-trivial = a wildcard match, or >= 2 "
     "responders, or a Find within 4 RES of a lifecycle boundary / timer; distinct = distinct case JSON"
@@ -31,6 +31,12 @@ BUDGET = {"quick": {"examples": 8000, "shrink": 300}, "thorough": {"examples": 4
 INF = 0xFFFFFF
 INST = [(0x4000, 0x0101, 1, 0x10007), (0x4000, 0x0102, 1, 0x300), (0x4000, 0x0101, 2, 0x10007)]
 W = (None, 0xFFFF, 0xFF, 0xFFFFFFFF)
+_A = dict(k="ip", type=0x04, addr="10.0.0.1", proto=17, port=30501)
+_B = dict(k="ip", type=0x04, addr="10.0.0.1", proto=6, port=30501)
+_C = dict(k="ip", type=0x06, addr="2001:db8::1", proto=17, port=30501)
+# option runs of the three instances: unrelated ones, and runs that are prefixes / suffixes / rotations of each other
+# (what the shared options array of a message with several answers has to keep apart)
+OPTSETS = [OPTS, [([_A], []), ([_A, _B], []), ([_B], [_A])], [([_A, _B], [_C]), ([_B, _C], [_A]), ([_C, _A], [_A, _B])]]
 
 when_st = st.one_of(
     st.tuples(st.just("d"), st.sampled_from([0.0, 0.001, 0.004, 0.02, 0.1, 0.3, 1.0, 2.5])).map(list),
@@ -47,7 +53,10 @@ def _find(draw):
     for k in (1, 2, 3):
         how = draw(st.sampled_from(["same", "same", "wild", "wild", "off"]))
         f.append(base[k] if how == "same" else (W[k] if how == "wild" else base[k] + 1))
-    return {"op": "find", "mc": draw(st.booleans()), "src": draw(st.integers(0, 1)), "f": f, "when": draw(when_st)}
+    fd = {"op": "find", "mc": draw(st.booleans()), "src": draw(st.integers(0, 1)), "f": f, "when": draw(when_st)}
+    if draw(st.integers(0, 5)) == 0:
+        fd["rb"] = True    # the requester restarted: this message carries the reboot flag and session id 1
+    return fd
 
 
 @st.composite
@@ -56,7 +65,8 @@ def _case(draw):
     for _ in range(draw(st.integers(1, 10))):
         op = draw(st.sampled_from(["find"] * 6 + ["stop", "start", "wait"]))
         steps.append(draw(_find()) if op == "find" else {"op": op, "when": draw(when_st)})
-    return {"tm": draw(_timing()), "n": draw(st.integers(1, 3)), "fr": draw(st.lists(st.sampled_from([0.0, 0.25, 0.5, 1.0]), min_size=1, max_size=4)), "steps": steps}
+    return {"tm": draw(_timing()), "n": draw(st.integers(1, 3)), "fr": draw(st.lists(st.sampled_from([0.0, 0.25, 0.5, 1.0]), min_size=1, max_size=4)), "steps": steps,
+            "opts": draw(st.integers(0, len(OPTSETS) - 1)), "decoy": draw(st.booleans())}
 
 
 def strategy(tier):
@@ -137,7 +147,17 @@ def run_case(case):
         tm = timings(INITIAL_DELAY_MIN=t["imin"], INITIAL_DELAY_MAX=t["imax"], REPETITIONS_MAX=t["reps"], REPETITIONS_BASE_DELAY=t["base"],
                      CYCLIC_OFFER_DELAY=t["cyc"], ANNOUNCE_TTL=t["ttl"], SEND_COLLECTION_TIMEOUT=t["coll"],
                      REQUEST_RESPONSE_DELAY_MIN=t["rmin"], REQUEST_RESPONSE_DELAY_MAX=t["rmax"])
-        prot = make_sd(sim, tm)
+        tm_prot = tm_inst = tm
+        if case.get("decoy"):
+            # separate Timings objects for the protocol and the instances; the parameters of the other role are set apart
+            tm_prot = timings(INITIAL_DELAY_MIN=0.013, INITIAL_DELAY_MAX=0.017, REPETITIONS_MAX=5, REPETITIONS_BASE_DELAY=0.011,
+                              CYCLIC_OFFER_DELAY=0.37, ANNOUNCE_TTL=7, SEND_COLLECTION_TIMEOUT=t["coll"],
+                              REQUEST_RESPONSE_DELAY_MIN=t["rmin"], REQUEST_RESPONSE_DELAY_MAX=t["rmax"])
+            tm_inst = timings(INITIAL_DELAY_MIN=t["imin"], INITIAL_DELAY_MAX=t["imax"], REPETITIONS_MAX=t["reps"], REPETITIONS_BASE_DELAY=t["base"],
+                              CYCLIC_OFFER_DELAY=t["cyc"], ANNOUNCE_TTL=t["ttl"], SEND_COLLECTION_TIMEOUT=0.033,
+                              REQUEST_RESPONSE_DELAY_MIN=0.041, REQUEST_RESPONSE_DELAY_MAX=0.043)
+        OPTS_ = OPTSETS[case.get("opts", 0) % len(OPTSETS)]
+        prot = make_sd(sim, tm_prot)
         ann = prot.announcer
         runs = {i: [] for i in range(n)}
         queued = []
@@ -156,9 +176,9 @@ def run_case(case):
         ann.queue_send = rec_queue
         for i in range(n):
             sid, iid, maj, minor = INST[i]
-            o1, o2 = OPTS[i]
+            o1, o2 = OPTS_[i]
             svc = cfg.Service(sid, iid, maj, minor, options_1=tuple(lib_option(o) for o in o1), options_2=tuple(lib_option(o) for o in o2))
-            ann.announce_service(sd.ServiceInstance(svc, ServerRec(sim, [], f"I{i}"), ann, tm))
+            ann.announce_service(sd.ServiceInstance(svc, ServerRec(sim, [], f"I{i}"), ann, tm_inst))
         started = [False]
         finds = []
 
@@ -182,7 +202,10 @@ def run_case(case):
                 src = ADDRS[s.get("src", 0) % 2]
                 snap = [(len(runs[i]) - 1, bool(runs[i]) and runs[i][-1]["stop"] is None, runs[i][-1]["first"] if runs[i] else None) for i in range(n)]
                 nc = len(stub.calls)
-                prot.datagram_received(sd_bytes([{"t": "find", "svc": f[0], "inst": f[1], "major": f[2], "minor": f[3]}], 1 + k, reboot=False), src, bool(s.get("mc")))
+                rb = bool(s.get("rb"))
+                prot.datagram_received(sd_bytes([{"t": "find", "svc": f[0], "inst": f[1], "major": f[2], "minor": f[3]}], 1 if rb else 1 + k, reboot=rb), src, bool(s.get("mc")))
+                if rb and any(x["src"] == src and x["mc"] == bool(s.get("mc")) for x in finds):
+                    feats["requester-reboot"] += 1
                 new = stub.calls[nc:]
                 finds.append({"t": sim.now, "mc": bool(s.get("mc")), "src": src, "f": f, "snap": snap, "draws": new, "k": k})
 
@@ -294,7 +317,7 @@ def run_case(case):
                 continue
             idx = next((j for j in range(n) if (e["service"], e["instance"], e["major"]) == INST[j][:3]), None)
             require(idx is not None, "C12.unexpected-answer", lambda: f"offer {e} for an unknown instance")
-            o1, o2 = OPTS[idx]
+            o1, o2 = OPTS_[idx]
             require(e["ttl"] == t["ttl"] and e["minor"] == INST[idx][3] and e["run1"] == [desc_semantic(o) for o in o1] and e["run2"] == [desc_semantic(o) for o in o2],
                     "C12.answer-content", lambda: f"answer {e} of instance {INST[idx]} (TTL {t['ttl']})")
             cands = [k for k in list(must) + list(may) if k[0] == e["dest"] and k[1] == idx and -RES <= e["t"] - k[2] <= t["coll"] + RES]
